@@ -10,6 +10,7 @@ import (
 
 	"github.com/bytemare/secp256k1"
 	"github.com/bytemare/secp256k1/verifharness/gen"
+	"github.com/bytemare/secp256k1/verifharness/pt"
 	"github.com/bytemare/secp256k1/verifharness/ref"
 	"pgregory.net/rapid"
 )
@@ -25,6 +26,7 @@ type act struct {
 	B    int    `json:"b,omitempty"`    // second argument index
 	U    uint64 `json:"u,omitempty"`    // uint64 parameter (SetUInt64, CSelect condition, mutation selector)
 	Data string `json:"data,omitempty"` // bytes parameter (invalid encodings, messages, entropy)
+	Step *pt.Step `json:"step,omitempty"` // e.repr: a value-preserving change of representation (white-box builds)
 }
 
 type caseC10 struct {
@@ -35,7 +37,7 @@ const poolSize = 4
 
 var (
 	elemOps = []string{"e.base", "e.identity", "e.set", "e.copy", "e.add", "e.add", "e.sub", "e.sub", "e.double", "e.negate", "e.mul", "e.addnil", "e.subnil",
-		"e.mulnil", "e.decode", "e.decodeunc", "e.decodebad", "e.coords", "e.h2g", "e.e2g", "e.copymut"}
+		"e.mulnil", "e.decode", "e.decodeunc", "e.decodebad", "e.coords", "e.h2g", "e.e2g", "e.copymut", "e.repr", "e.repr"}
 	scalOps = []string{"s.zero", "s.one", "s.minusone", "s.setu64", "s.set", "s.setnil", "s.copy", "s.add", "s.sub", "s.mul", "s.square", "s.invert", "s.pow",
 		"s.decode", "s.decodebad", "s.h2s", "s.random", "s.cselect", "s.addnil", "s.mulnil", "s.copymut"}
 )
@@ -70,6 +72,9 @@ func genAct(t *rapid.T) act {
 		a.Data = gen.H(b)
 	case "e.coords":
 		a.U = uint64(rapid.IntRange(0, 3).Draw(t, "mut"))
+	case "e.repr":
+		st := pt.StepGen(false, false).Draw(t, "step")
+		a.Step = &st
 	}
 	return a
 }
@@ -166,6 +171,18 @@ func runC10(c caseC10, o *gen.Obs) error {
 		case "e.copymut": // mutate a copy: the source must not change
 			cp := st.E[x].Copy()
 			cp.Double().Add(secp256k1.Base()).Negate()
+		case "e.repr":
+			// the group element stays the same, its internal representation changes (re-scaling and coordinate
+			// targets need the white-box build; the API recipes work everywhere)
+			if a.Step == nil || (len(a.Step.Op) > 3 && a.Step.Op[:3] == "id:") {
+				continue
+			}
+			ne, err := pt.ApplyStep(st.E[r], *a.Step, st.ME[r])
+			if err != nil {
+				return gen.Fail("history/decode-own-encoding", "step %d: %v", step, err)
+			}
+			st.E[r] = ne
+			nonUnitZ++
 		case "e.add":
 			st.E[r].Add(st.E[x])
 			st.ME[r] = ref.Add(st.ME[r], st.ME[x])
